@@ -26,9 +26,9 @@ def plan(ctx):
     k = P.per_interp_shards(ctx)
     for v in ctx.producers:
         if ctx.tier == "quick":
-            cases = P.corpus_cases(ctx, v, n_files=12, n_w3=40, modes=2, max_file_bytes=10000, w3_size=0.5, w1_max_bytes=20000,
-                                   w4_filter=lambda i: i.startswith(("sig-", "doc-", "const-", "dead-", "future-", "comp", "class", "fold-", "if-6", "while-6", "for-else-6", "try-6",
-                                                                     "names-25", "consts-25", "cells-25", "locals-25", "unused", "dup", "multi", "nested", "match", "with")))
+            cases = P.corpus_cases(ctx, v, n_files=8, n_w3=24, modes=2, max_file_bytes=8000, w3_size=0.4, w1_max_bytes=12000,
+                                   w4_filter=lambda i: i.startswith(("sig-", "doc-", "const-", "dead-", "comp", "class-cell", "fold-tuple-5-after", "fold-call-star-3", "if-63", "while-64",
+                                                                     "for-else-126", "try-64", "names-256", "consts-257", "cells-255", "locals-256", "unused", "dup", "nested", "match", "with-paren")))
             depth, vfiles = 3, 150
         else:
             cases = P.corpus_cases(ctx, v, n_files=250, n_w3=500, modes=30, max_file_bytes=60000)
